@@ -800,7 +800,10 @@ theorem saveSubBlock_wf {U : Univ} : ∀ (fuel : Nat) (s : State) (id : Nat), WF
         generalize st.saveBlock ob = r at hw
         obtain ⟨st1, ok⟩ := r
         cases ok with
-        | false => exact hw
+        | false =>
+          -- a refused orphan is dropped from the pool (c063377a): only `orphans` shrinks
+          obtain ⟨g1, g2, g3, g4, _, _⟩ := orphanDelete_frame st1 o
+          exact WF.orphans_subset (s := st1) hw g1 g2 g3 g4
         | true => exact ih st1 o hw
 
 theorem orphanAdd_wf {U : Univ} {s : State} (h : WF U s) (b : Header) (hb : U.mem b.id b.parent b.height) :
